@@ -131,13 +131,21 @@ class Ctx:
                 self.extra_obligations.append(Obligation(f"{self.cdef.name}/{ns}{k}/pre:{label}", list(pc), goal, "pre", "precondition of a callee / assertion"))
         return outs
 
-    def equiv(self, label, run_a, run_b, **kw):
+    def equiv(self, label, run_a, run_b, post=None, **kw):
+        """Every feasible (path of a, path of b) pair has the same outcome.  `post`, when given, is
+        a postcondition evaluated on the outcomes of `a` as well (same shape as check_outcomes)."""
+        from .verify import Obligation
+
         a = self.explore(run_a, "a")
         b = self.explore(run_b, "b")
         cmp = Comparison(label, self.all_premises(), **kw)
         if not a or not b:
             raise Unsupported(f"{label}: no feasible path (vacuous precondition?)")
         cmp.outcomes("", a, b)
+        if post is not None:
+            for i, o in enumerate(a):
+                for sub, prem, goal, note in post(o):
+                    cmp.obligations.append(Obligation(f"{label}/p{i}/{sub}", cmp.premises + list(o.pc) + list(prem), goal, "post", note))
         self.comparisons.append(cmp)
         return cmp
 
